@@ -68,6 +68,9 @@ func c05Jobs(tier string) []string {
 	add("or=r,devs=hyl,mss=100,w=100+100+100+100,wgap=120,b=2", 4)
 	// a timeout with a backlog (more written than the window lets out), then a loss among the
 	// segments first sent after it: a new episode, fast retransmit is due again
+	// an ICMP fragmentation-needed that arrives late in the segment's timer interval, and the
+	// smaller segments sent in answer are lost: the timer must run a full RTO from that resend
+	add("or=rw,devs=pl,mss=1460,w=1460+1460,ptb=576,ptbd=150,rtt=10,b=2", 1)
 	add("or=r,devs=l,mss=100,w=3000,silent=1,b=1", 2)
 	add("or=r,devs=l,mss=100,w=3000,silent=1,rtt=50,b=1", 2)
 	if tier == "thorough" {
